@@ -154,7 +154,8 @@ PLANS = {
     "C14": {
         "level": "proof",
         "sidecars": ["cells", "cellproto", "debump"],
-        "extras": [{"name": "c14_protocol", "module": "bounded.c14_protocol", "func": "run", "python": "venv"}],
+        "extras": [{"name": "c14_protocol", "module": "bounded.c14_protocol", "func": "run", "python": "venv"},
+                   {"name": "c14_thresholds", "module": "tables.c14_thresholds", "func": "run", "python": "vt"}],
         "explanation": "contracts on Cells.add_cell/remove_cell/get_near_cells and the tiling lemma (also for re-added atoms "
                        "and a second cell list); caller protocol: every method of the hydrogen optimisation that creates, "
                        "deletes or moves atoms re-establishes 'every atom of the residue is registered where it is, every "
